@@ -2,6 +2,8 @@
 # usage: mutrun.sh <Cxx[,Cyy]> <tier> <sed-expr> <file-relative-to-repo>   (sensitivity audit helper; always restores /repo)
 # or:    mutrun.sh <Cxx[,Cyy]> <tier> --patch <patchfile>
 props=$1; tier=$2; shift 2
+restore() { git -C /repo checkout -- . ; }
+trap restore EXIT INT TERM
 cd /repo || exit 9
 if [ "$1" == "--patch" ]; then git apply "$2" || { echo "PATCH-FAILED"; exit 9; }
 else sed -i -E "$1" "$2"; fi
@@ -9,8 +11,8 @@ if git diff --quiet; then echo "MUTATION-NOOP"; exit 9; fi
 git diff --stat | tail -1
 cd /verif
 for p in ${props//,/ }; do
-  out=$(./check run $p --tier $tier 2>&1); rc=$?
+  out=$(timeout ${MUT_TIMEOUT:-600} ./check run $p --tier $tier 2>&1); rc=$?
   echo "$out" | grep -E "^(VIOLATION|OK|BROKEN|KNOWN)|violation detail" | cut -c1-400
   echo "== $p rc=$rc"
+  pkill -f "build/native/bin/$p " 2>/dev/null
 done
-git -C /repo checkout -- .
